@@ -20,6 +20,8 @@ pub enum Op {
     Charset(String),
     Utf8(bool),
     Quiet(bool),
+    /// clear the dirty set before every listener call (the embedder of C17)
+    AutoClear(bool),
     Snap,
     Back,
 }
@@ -60,6 +62,7 @@ impl Op {
             Op::Charset(c) => format!("charset {}", nums(c)),
             Op::Utf8(b) => format!("utf8 {}", *b as u32),
             Op::Quiet(b) => format!("quiet {}", *b as u32),
+            Op::AutoClear(b) => format!("autoclear {}", *b as u32),
             Op::Snap => "snap".to_string(),
             Op::Back => "back".to_string(),
         }
@@ -91,6 +94,7 @@ impl Op {
             "charset" => Ok(Op::Charset(to_str(parse_nums(rest)?)?)),
             "utf8" => Ok(Op::Utf8(rest.trim() == "1")),
             "quiet" => Ok(Op::Quiet(rest.trim() == "1")),
+            "autoclear" => Ok(Op::AutoClear(rest.trim() == "1")),
             "snap" => Ok(Op::Snap),
             "back" => Ok(Op::Back),
             _ => Err(format!("unknown op {:?}", line)),
@@ -274,6 +278,7 @@ impl<'a> Runner<'a> {
                 }
             }
             Op::Quiet(q) => lock(&self.tap).quiet = *q,
+            Op::AutoClear(q) => lock(&self.tap).autoclear = *q,
             Op::Snap => {
                 let t = lock(&self.tap);
                 self.snap = Some(clone_screen(&t.screen));
